@@ -523,11 +523,13 @@ class WcsSampler(object):
             hi2 = min(e2 + 1, coarse_lat.shape[1] - 1)
 
             # Now figure out how many samples to compute in our refined grid.
-            # We want to sample essentially every pixel. We need at least two
-            # samples so that both ends of the interval are included.
+            # We want to sample essentially every pixel: `n` samples leave
+            # `n - 1` gaps, so a span of `s` pixels needs `ceil(s) + 1` of them.
+            # We need at least two samples so that both ends of the interval
+            # are included.
 
-            n1 = max(int(np.ceil(coarse_idx1[hi1] - coarse_idx1[lo1])), 2)
-            n2 = max(int(np.ceil(coarse_idx2[hi2] - coarse_idx2[lo2])), 2)
+            n1 = max(int(np.ceil(coarse_idx1[hi1] - coarse_idx1[lo1])) + 1, 2)
+            n2 = max(int(np.ceil(coarse_idx2[hi2] - coarse_idx2[lo2])) + 1, 2)
 
             # Generate that grid.
 
@@ -550,6 +552,28 @@ class WcsSampler(object):
 
         lat_min = refine_lat(np.argmin)
         lat_max = refine_lat(np.argmax)
+
+        # If a celestial pole lies inside the image, the latitude extreme is
+        # the pole itself, which sampling at pixel resolution only approaches.
+
+        for pole_lat in (-90.0, 90.0):
+            try:
+                pole_pix = self._wcs.wcs_world2pix([[0.0, pole_lat]], 1)[0]
+                back_lat = self._wcs.wcs_pix2world([pole_pix], 1)[0][1]
+            except Exception:
+                continue
+
+            if not np.all(np.isfinite(pole_pix)) or abs(back_lat - pole_lat) > 1e-6:
+                continue  # the pole is not on the visible side of the projection
+
+            if (
+                0.5 <= pole_pix[0] <= naxis1 + 0.5
+                and 0.5 <= pole_pix[1] <= naxis2 + 0.5
+            ):
+                if pole_lat > 0:
+                    lat_max = 90 * D2R
+                else:
+                    lat_min = -90 * D2R
 
         # Longitudes are annoying since we need to make sure they're unwrapped.
         # On the other hand, I can't think of a non-pathological way in which an
@@ -593,7 +617,7 @@ class WcsSampler(object):
                 # "top" edge (thinking of array as [lon, lat] ~ [x, y])
                 lo = max(e - 1, 0)
                 hi = min(e + 1, nm)
-                n = max(int(np.ceil(coarse_idx1[hi] - coarse_idx1[lo])), 2)
+                n = max(int(np.ceil(coarse_idx1[hi] - coarse_idx1[lo])) + 1, 2)
                 refined_idx1 = np.linspace(coarse_idx1[lo], coarse_idx1[hi], n)
                 refined_idx2 = np.zeros(n) + coarse_idx2[0]
             elif e < 2 * nm:
@@ -601,7 +625,7 @@ class WcsSampler(object):
                 rel = e - nm
                 lo = max(rel - 1, 0)
                 hi = min(rel + 1, nm)
-                n = max(int(np.ceil(coarse_idx2[hi] - coarse_idx2[lo])), 2)
+                n = max(int(np.ceil(coarse_idx2[hi] - coarse_idx2[lo])) + 1, 2)
                 refined_idx1 = np.zeros(n) + coarse_idx1[nm]
                 refined_idx2 = np.linspace(coarse_idx2[lo], coarse_idx2[hi], n)
             elif e < 3 * nm:
@@ -609,7 +633,7 @@ class WcsSampler(object):
                 rel = 3 * nm - (1 + e)
                 lo = max(rel - 1, 0)
                 hi = min(rel + 1, nm)
-                n = max(int(np.ceil(coarse_idx1[hi] - coarse_idx1[lo])), 2)
+                n = max(int(np.ceil(coarse_idx1[hi] - coarse_idx1[lo])) + 1, 2)
                 refined_idx1 = np.linspace(coarse_idx1[lo], coarse_idx1[hi], n)
                 refined_idx2 = np.zeros(n) + coarse_idx2[nm]
             else:
@@ -618,7 +642,7 @@ class WcsSampler(object):
                 rel = 4 * nm - e
                 lo = max(rel - 1, 0)
                 hi = min(rel + 1, nm)
-                n = max(int(np.ceil(coarse_idx2[hi] - coarse_idx2[lo])), 2)
+                n = max(int(np.ceil(coarse_idx2[hi] - coarse_idx2[lo])) + 1, 2)
                 refined_idx1 = np.zeros(n) + coarse_idx1[0]
                 refined_idx2 = np.linspace(coarse_idx2[lo], coarse_idx2[hi], n)
 
